@@ -18,10 +18,26 @@ type File struct {
 	Src  []byte
 }
 
-const (
-	verifCorpus = "/verif/corpus/go"
-	repoRoot    = "/repo"
+var (
+	verifCorpus = root() + "/corpus/go"
+	repoRoot    = repo()
 )
+
+func root() string {
+	if r := os.Getenv("VERIF_ROOT"); r != "" {
+		return r
+	}
+	return "/verif"
+}
+
+// repo is the repository whose testdata is read: /repo, or the scratch copy
+// named by VERIF_REPO while a check is being developed.
+func repo() string {
+	if r := os.Getenv("VERIF_REPO"); r != "" {
+		return r
+	}
+	return "/repo"
+}
 
 var (
 	goOnce  sync.Once
